@@ -40,6 +40,8 @@ ANCHORS = [
     ("src/easynetwork/clients/udp.py", "UDPNetworkClient.send_packet"),
     ("src/easynetwork/clients/udp.py", "UDPNetworkClient.recv_packet"),
     ("src/easynetwork/clients/_iter.py", "ClientRecvIterator.__next__"),
+    ("src/easynetwork/clients/_iter.py", "AsyncClientRecvIterator.__anext__"),
+    ("src/easynetwork/clients/_iter.py", "AsyncClientRecvIterator.__init__"),
     ("src/easynetwork/clients/abc.py", "AbstractNetworkClient.iter_received_packets"),
 ]
 RULE = ("_retry: every callback script of <= 3 answers over {returns, would-block-read, would-block-write, raises} x every "
@@ -445,8 +447,142 @@ def run_udp_send(inp):
     return [code, wire, sel.waits, dt, slock.waits]
 
 
+# ---- op 6: _retry in a time-indexed environment
+def run_retry_env(inp):
+    import selectors as _selectors
+    from easynetwork.lowlevel.api_sync.transports.base_selector import SelectorBaseTransport, WouldBlockOnRead
+
+    class T0(SelectorBaseTransport):
+        def close(self):
+            pass
+
+        def is_closed(self):
+            return False
+
+        @property
+        def extra_attributes(self):
+            return {}
+
+    _, T, ri, tau, spur = inp[:5]
+    T, ri = iosim.sx_tmo(T), iosim.sx_tmo(ri)
+    clock = iosim.Clock()
+    start = clock.now
+    waits = []
+    calls = [0]
+    bound = max(tau, 0) + 3
+
+    def now():
+        return int(round((clock.now - start) / iosim.TICK))
+
+    class EnvSelector:
+        def __enter__(self):
+            return self
+
+        def __exit__(self, *a):
+            pass
+
+        def register(self, fileobj, events, data=None):
+            self.events = events
+
+        def select(self, timeout=None):
+            n = now()
+            ev = min([tau] + [x for x in spur if n < x < tau])       # first readiness instant after now
+            if timeout is None:
+                waits.append([0, []])
+                clock.advance(ev - n)
+                return [(None, self.events)]
+            t = iosim.ticks(timeout)
+            waits.append([0, [t] if isinstance(t, int) else [-7]])
+            if not isinstance(t, int):
+                return []
+            if ev <= n + t:
+                clock.advance(ev - n)
+                return [(None, self.events)]
+            clock.advance(t)
+            return []
+
+    def callback():
+        calls[0] += 1
+        if calls[0] > bound:
+            raise iosim.SpinDetected()
+        if tau <= now():
+            return "ok"
+        raise WouldBlockOnRead(0)
+
+    tr = T0(iosim.secs(ri), EnvSelector)
+    code, ret = 0, []
+    with clock.installed(), iosim.alarm(10.0):
+        try:
+            val, rest = tr._retry(callback, iosim.secs(T))
+            t = iosim.ticks(rest)
+            ret = [iosim.tmo_sx(t) if not isinstance(t, tuple) else [-7]]
+        except BaseException as exc:  # noqa: BLE001
+            if isinstance(exc, (KeyboardInterrupt, SystemExit)):
+                raise
+            code = iosim.exc_code(exc)
+    return [code, ret, waits, now()]
+
+
+# ---- op 7: AsyncClientRecvIterator on the deterministic loop
+def run_async_iter(inp):
+    import asyncio
+    import time as _time
+    from common import detloop
+    from easynetwork.clients._iter import AsyncClientRecvIterator
+    from easynetwork.lowlevel.api_async.backend._asyncio.backend import AsyncIOBackend
+
+    _, T, arr = inp[:3]
+    T = iosim.sx_tmo(T)
+    out = []
+    with iosim.alarm(10.0), detloop.running() as loop:
+        backend = AsyncIOBackend()
+        saved = _time.perf_counter
+        _time.perf_counter = loop.time
+
+        class Client:
+            i = 0
+
+            def backend(self):
+                return backend
+
+            async def recv_packet(self):
+                d = arr[Client.i]
+                Client.i += 1
+                if d < 0:
+                    raise ConnectionResetError(104, "scripted")
+                if d > 0:
+                    await asyncio.sleep(d * iosim.TICK)
+                return b"p"
+
+        async def main():
+            it = AsyncClientRecvIterator(Client(), _py_timeout(T))
+            for _ in arr:
+                t0 = loop.time()
+                try:
+                    await anext(it)
+                    code = 0
+                except StopAsyncIteration as exc:
+                    code = iosim.exc_code(exc.__cause__) if exc.__cause__ is not None else 42
+                except BaseException as exc:  # noqa: BLE001
+                    if isinstance(exc, (KeyboardInterrupt, SystemExit)):
+                        raise
+                    code = iosim.exc_code(exc)
+                dt = iosim.ticks(loop.time() - t0)
+                out.append([code, dt if isinstance(dt, int) else -7])
+
+        try:
+            loop.run_until_complete(main())
+        finally:
+            _time.perf_counter = saved
+    return out
+
+
 def run_impl(inp):
     op = inp[0]
+    if op == 6:
+        return run_retry_env(inp)
+    if op == 7:
+        return run_async_iter(inp)
     return {0: run_retry, 1: run_calls, 2: run_iter, 3: run_client_send, 4: run_udp_recv, 5: run_udp_send}[op](inp)
 
 
@@ -533,6 +669,37 @@ def oracle(inp):
         if code == 0 and wire != want:
             return "send_packet returned without writing the packet"
         return _budget_failure(T, waits, lockwaits, sels, _lock_of(lk), code, "send_packet")
+    if op == 6:
+        _, T, ri, tau, spur = inp[:5]
+        T = iosim.sx_tmo(T)
+        code, ret, waits, dt = out
+        if code in (8, 9):
+            return "_retry does not terminate"
+        if T is not None and T >= 0:
+            if code == 1 and tau <= T:
+                return f"_retry (env): TimeoutError although the fd is ready at {tau} <= T={T}"
+            if code == 1 and dt > T:
+                return f"_retry (env): waited {dt} > T={T}"
+            if code == 0 and dt > T:
+                return f"_retry (env): returned after {dt} > T={T}"
+            if T == 0 and waits:
+                return "_retry (env): a zero timeout waited"
+        if T is None and code == 1:
+            return "_retry (env): TimeoutError with an infinite timeout"
+        return None
+    if op == 7:
+        _, T, arr = inp[:3]
+        T = iosim.sx_tmo(T)
+        total = 0
+        for code, dt in out:
+            total += dt
+            if T is not None and total > T:
+                return f"async iterator: {total} ticks spent with T={T}"
+            if T is None and code == 1:
+                return "async iterator: TimeoutError with an infinite timeout"
+            if code != 0:
+                break
+        return None
     if op == 4:
         _, ri, T, lk, rscript, sels = inp[:6]
         outcome, waits, dt, lockwaits = out
@@ -672,6 +839,27 @@ def cases(tier, rng, escalate):
         yield dict(input=[3, has_sendmsg, iov, c04.mk_chunks(lengths), iosim.tmo_sx(T), iosim.tmo_sx(rng.choice(RIS)), lk, s, sels, 0],
                    tags=_tags(3, T, ["send", "lock-held" if isinstance(lk, list) else "lock-free"]),
                    nontrivial=bool(isinstance(lk, list) or any(a[0] != 0 for a in s)))
+    # ---- op 6: time-indexed environment, exhaustive: tau x T x ri x spurious sets
+    taus = range(-1, 12) if thorough else [-1, 0, 1, 2, 3, 5, 8, 9, 11]
+    spurs = [[], [1], [2], [1, 2], [2, 4, 7], [3, 3, 9], [1, 2, 3, 4, 5, 6]]
+    for tau in taus:
+        for T in TS + [2, 5, -1]:
+            for ri in RIS + [3, 5]:
+                for spur in spurs:
+                    if not thorough and len(spur) > 2 and rng.random() < 0.5:
+                        continue
+                    yield dict(input=[6, iosim.tmo_sx(T), iosim.tmo_sx(ri), tau, spur],
+                               tags=_tags(6, T, ["env", f"ri={'inf' if ri is None else ri}", "spurious" if spur else "no-spurious",
+                                                 "arrives-in-time" if (T is None or tau <= T) else "too-late"]),
+                               nontrivial=tau > 0)
+    # ---- op 7: asynchronous iterator
+    for T in TS + [2, 5, 13]:
+        for k in range(1, 4):
+            for arr in itertools.product([0, 1, 2, 3, 5, 9, -1], repeat=k):
+                if k == 3 and rng.random() < (0.5 if thorough else 0.8):
+                    continue
+                yield dict(input=[7, iosim.tmo_sx(T), list(arr)], tags=_tags(7, T, ["async-iter", f"nexts{k}"]),
+                           nontrivial=any(d > 0 for d in arr))
     # ---- op 4 / 5: UDP client
     n4 = 1500 if thorough else 400
     for _ in range(n4):
